@@ -12,6 +12,15 @@ void _ZNSt6vectorIPKN4bloc9StatementESaIS3_EEC1Ev(void *this) { (void)this; }
 void _ZNSt6vectorIPN4bloc5ValueESaIS2_EEC1Ev(void *this) { (void)this; }
 void _ZNSt9exceptionC2Ev(void *this) { (void)this; }
 
+#ifdef JOB_TRUSTED
+/* void Context::trusted(bool b): the trusted flag becomes b -- whatever it was --, the other flags are not touched */
+void _ZN4bloc7Context7trustedEb(struct Context *this, _Bool b)
+__CPROVER_requires(IS_FRESH(this, sizeof(*this)) && *(unsigned char *)&b <= 1 && __exc == 0 && GLOBALS_PINNED)
+__CPROVER_assigns(__CPROVER_object_whole(this))
+PROP(C01, C16) __CPROVER_ensures(OK)
+PROP(C16) __CPROVER_ensures(((this->_flags & 1) != 0) == (b != 0) && (this->_flags & ~1u) == (__CPROVER_old(this->_flags) & ~1u))
+;
+#else
 struct Context *_ZNK4bloc7Context16createChildShellERS0_(struct Context *this, struct Context *root)
 __CPROVER_requires(IS_FRESH(this, sizeof(*this)) && IS_FRESH(root, sizeof(*root)))
 __CPROVER_requires(__exc == 0 && __caught_n == 0 && GLOBALS_PINNED)
@@ -19,5 +28,6 @@ __CPROVER_assigns()
 PROP(C16) __CPROVER_ensures(OK && RET != 0 && RET != this && RET->_flags == this->_flags && this->_flags == __CPROVER_old(this->_flags))
 PROP(C16) __CPROVER_ensures(RET->_root == this->_root && RET->_fctm == root->_fctm)
 ;
+#endif
 
 #include FNS_C
